@@ -77,3 +77,7 @@ LEVEL_NOTE["C07"] = "Known finding listed in known_findings.txt (accepted socket
 LEVEL_TEXT["C06"] = ("Exploration: generated shutdown source (Engine.Stop, package Stop, Shutdown action from OnOpen/OnTraffic/OnClose/OnTick/Wake-induced OnTraffic, OnBoot, Client.Stop), moment and concurrent activity (idle/streaming/back-pressured connections, connect flood, async producers, slow OnTick, backlog of queued requests, Run and Rotate) "
                      "against a real engine; oracle: return without error within the bound, one OnClose per opened connection by then, exactly one OnShutdown, no callback observed after the return (including a still-running OnTick), listener refuses connections, OnBoot variant starts nothing.")
 LEVEL_NOTE["C06"] = "Bounded liveness (10 s, confirmed by re-running the case); connect floods stop 3 ms after the request (an endless flood that outpaces the acceptor starves its request queue - noted in DESIGN.md, not judged); 'never again' is observed until the end of the session plus a grace period."
+
+LEVEL_TEXT["C08"] = ("Exploration: real UDP listeners (udp4/udp6, 1..4 loops, four read-buffer sizes, default and poll_opt builds) receive generated self-describing datagrams of boundary sizes (0, 1, around the MTU, read-buffer size -1/+0, 65507) from 1..6 concurrent senders while a generated handler script consumes all/part/none and replies with Write and SendTo; "
+                     "each event, each reply at each sender, and each SendTo delivery at the third socket is compared byte for byte and counted (exactly once).")
+LEVEL_NOTE["C08"] = "Assumes loop-back UDP does not drop within the harness's in-flight bound (64 KiB, socket buffers raised to 4 MiB); a reply missing for 3 s is reported as a lost event; payloads above the read-buffer size are outside the statement."
